@@ -59,7 +59,8 @@ def _is_ws(m, args, raw):
     return z3.Or([c == v for v in (0x20, 0x09, 0x0A, 0x0C, 0x0D)])
 
 
-@model("String::from_utf8_lossy", "Cow::into_owned", "^<String as Into(<.*>)?>::into$", "^<Vec<u8> as Into(<.*>)?>::into$")
+@model("String::from_utf8_lossy", "Cow::into_owned", "^<String as Into(<.*>)?>::into$", "^<Vec<u8> as Into(<.*>)?>::into$",
+       "<OsStr as OsStrExt>::from_bytes", "OsStrExt::from_bytes", "OsStr::to_os_string")
 def _bytes_identity(m, args, raw):
     """global (inherited by the modules that import this one): the lossy conversion as the identity - right for the ASCII / valid UTF-8 text those modules
     feed it; this module's own Machine overrides String::from_utf8_lossy with std's contract (READER_NATIVES)"""
